@@ -185,6 +185,26 @@ class _Hist:
         return t[idx] if len(t) > idx else self.denom
 
 
+def _norm(ops):
+    """`advance SECS MODE NANOS` -> `advance <whole seconds of block time crossed>`: rewards count whole seconds
+    (reading R8: floor differences of the block time, which starts at .879305533), so every predicate reasons in them"""
+    out, frac, app_frac, cur = [], 879305533, {}, "1"
+    for o in ops:
+        t = o.split()
+        if t and t[0] == "app" and len(t) > 1:
+            app_frac[cur] = frac
+            cur = t[1]
+            frac = app_frac.get(cur, 879305533)
+        if t and t[0] == "advance" and len(t) in (3, 4) and t[1].isdigit():
+            ns = int(t[3]) if len(t) == 4 and t[3].isdigit() else 0
+            f = frac + ns
+            frac = f % 1000000000
+            out.append("advance %d" % (int(t[1]) + f // 1000000000))
+        else:
+            out.append(o)
+    return out
+
+
 def _first_panic(ops, impl):
     for i, (o, r) in enumerate(zip(ops, impl)):
         if r == "panic" and not o.startswith("dec "):
@@ -198,6 +218,7 @@ def _first_panic(ops, impl):
 # C14
 
 def pred_c14(ops, impl):
+    ops = _norm(ops)
     m = _first_panic(ops, impl)
     if m:
         return "C14 no-panic: " + m
@@ -301,6 +322,7 @@ def pred_c14(ops, impl):
 # C15
 
 def pred_c15(ops, impl):
+    ops = _norm(ops)
     h = _Hist()
     tracked = {}      # (d, v) -> dict(E, paid, w)
     for (i, t, out, bo, bd, ao, ad) in _Walk(ops, impl).events():
@@ -384,6 +406,7 @@ def pred_c15(ops, impl):
 # C16
 
 def pred_c16(ops, impl):
+    ops = _norm(ops)
     h = _Hist()
     for (i, t, out, bo, bd, ao, ad) in _Walk(ops, impl).events():
         op = " ".join(t)
@@ -487,6 +510,7 @@ def pred_c16(ops, impl):
 # coverage rules
 
 def nt_c14(ops, impl):
+    ops = _norm(ops)
     # a matured unbonding was paid after at least one slash, or a rejection happened next to a live delegation
     seen_undeleg = seen_slash = False
     for o, r in zip(ops, impl):
@@ -500,10 +524,12 @@ def nt_c14(ops, impl):
 
 
 def nt_c15(ops, impl):
+    ops = _norm(ops)
     return any(o.startswith("withdraw") and r == "ok" for o, r in zip(ops, impl))
 
 
 def nt_c16(ops, impl):
+    ops = _norm(ops)
     n = 0
     for o, r in zip(ops, impl):
         if o.startswith("slash") and r == "ok" and not o.endswith(" 0"):
@@ -528,6 +554,7 @@ def _split_apps(ops, impl):
 
 
 def pred_c19_staking(ops, impl):
+    ops = _norm(ops)
     """The same history on two fresh instances gives identical transcripts — including the `!h=` lines, i.e. the hash
     of the complete raw storage after every op — no matter what happens on a third instance in between."""
     texts, outs = _split_apps(ops, impl)
@@ -541,6 +568,7 @@ def pred_c19_staking(ops, impl):
 
 
 def nt_c19_staking(ops, impl):
+    ops = _norm(ops)
     # non-trivial: on instance 1 at least two different delegators staked successfully with the same validator
     texts, outs = _split_apps(ops, impl)
     seen = {}
